@@ -43,9 +43,10 @@ for name in sorted(os.listdir(os.path.join(HERE, 'seeded'))):
                             'caught': caught, 'exit': r.returncode,
                             'wall_s': round(time.time() - t0, 1),
                             'first': first[:200]})
-            print(f'{name:45s} {pid} '
-                  f'{"CAUGHT" if caught else "MISSED exit=%d" % r.returncode}'
-                  f' {first[:100]}', flush=True)
+            tag = 'CAUGHT' if caught else 'MISSED exit=%d' % r.returncode
+            if not caught and meta.get('expected_caught') is False:
+                tag = 'NOT CAUGHT (by decision, see meta.json)'
+            print(f'{name:45s} {pid} {tag} {first[:100]}', flush=True)
     finally:
         shutil.rmtree(root, ignore_errors=True)
 with open(os.path.join(HERE, 'evidence', 'selftest_seeded.json'), 'w') as f:
